@@ -4,7 +4,7 @@
    offsets over all integers. *)
 From Coq Require Import Reals QArith Qreals Qcanon.
 From Coquelicot Require Import Complex.
-From LV Require Import Lib.Cis Model.Dft Proofs.DftP Proofs.DftInvP.
+From LV Require Import Lib.Cis Model.Dft Model.DftOut Proofs.DftP Proofs.DftOutP Proofs.DftInvP.
 
 (* every output sample (u, v) carries the defining sum over input samples, both planes' origins at
    index floor(n/2), times sqrt|alpha_r alpha_c| exactly when unitary *)
@@ -49,6 +49,18 @@ Theorem C01_out_buffer_transparent :
       = dft2_out sq None f ar ac M N shr shc offr offc unitary).
 Proof. exact dft2_out_transparent. Qed.
 Print Assumptions C01_out_buffer_transparent.
+
+(* the same for the inverse transform's out= (the buffer is handed down to dft2 and finished in place) *)
+Theorem C01_inverse_out_buffer_transparent :
+  forall (S : Scalar) (sq : Qc -> S) (dt : dtype) (buf1 buf2 : arr S) F ar ac M N shr shc unitary,
+  nr buf1 = nr buf2 -> nc buf1 = nc buf2 ->
+  idft2_out sq (Some (dt, buf1)) F ar ac M N shr shc unitary
+  = idft2_out sq (Some (dt, buf2)) F ar ac M N shr shc unitary
+  /\ (dt <> Float64 -> nr buf1 = M -> nc buf1 = N ->
+      idft2_out sq (Some (dt, buf1)) F ar ac M N shr shc unitary
+      = idft2_out sq None F ar ac M N shr shc unitary).
+Proof. exact idft2_out_transparent. Qed.
+Print Assumptions C01_inverse_out_buffer_transparent.
 
 (* ---- over the complex numbers: CS is Coquelicot's C with e t = exp(-2 pi i t) = cis (-(2 PI t)).
    The model's square-root parameter [sq] is any function with (sq q)^2 = q for q >= 0 (e.g. the
